@@ -174,6 +174,42 @@ fn summary(c: &OwnedSpendBundleConditions) -> String {
     format!("cc={} rem={} add={} fee={} {}", c.condition_cost, c.removal_amount, c.addition_amount, c.reserve_fee, per.join(""))
 }
 
+/// the interned size of a generator from its definition: every distinct atom (by content) counts its length + 2, every
+/// distinct pair (by the tree below it) counts 3
+fn independent_interned_weight(g: &[u8]) -> Option<u64> {
+    use clvmr::allocator::{NodePtr, SExp};
+    use std::collections::{HashMap, HashSet};
+    let mut a = clvmr::Allocator::new();
+    let root = clvmr::serde::node_from_bytes_backrefs(&mut a, g).ok()?;
+    let mut atoms: HashSet<Vec<u8>> = HashSet::new();
+    let mut pairs: HashSet<[u8; 32]> = HashSet::new();
+    let mut memo: HashMap<NodePtr, [u8; 32]> = HashMap::new();
+    let mut stack: Vec<(NodePtr, bool)> = vec![(root, false)];
+    while let Some((n, expanded)) = stack.pop() {
+        if memo.contains_key(&n) { continue; }
+        match a.sexp(n) {
+            SExp::Atom => {
+                let bytes = a.atom(n).as_ref().to_vec();
+                let mut h = chia_sha2::Sha256::new(); h.update([1u8]); h.update(&bytes);
+                memo.insert(n, h.finalize());
+                atoms.insert(bytes);
+            }
+            SExp::Pair(l, r) => {
+                if expanded {
+                    let (hl, hr) = (memo.get(&l)?, memo.get(&r)?);
+                    let mut h = chia_sha2::Sha256::new(); h.update([2u8]); h.update(hl); h.update(hr);
+                    let d: [u8; 32] = h.finalize();
+                    memo.insert(n, d);
+                    pairs.insert(d);
+                } else {
+                    stack.push((n, true)); stack.push((l, false)); stack.push((r, false));
+                }
+            }
+        }
+    }
+    Some(atoms.iter().map(|x| x.len() as u64 + 2).sum::<u64>() + 3 * pairs.len() as u64)
+}
+
 pub fn check_bundle(name: &str, b: &SpendBundle, interned: bool, strict: bool) -> (u64, Vec<(String, String)>) {
     let max = TEST_CONSTANTS.max_block_cost_clvm;
     let cpb = TEST_CONSTANTS.cost_per_byte;
@@ -387,6 +423,15 @@ pub fn check_bundle(name: &str, b: &SpendBundle, interned: bool, strict: bool) -
         n += 1;
         let blk = run_block_generator2(g, blocks, max, flags, &Signature::default(), None, &TEST_CONSTANTS).map(|(a2, c)| OwnedSpendBundleConditions::from(&a2, c));
         let id = format!("{name}/{tag}/{gname}");
+        // under INTERNED_GENERATOR the size part of the reported cost is the generator's interned weight, computed here from
+        // its definition (distinct atoms: length + 2 each, distinct pairs: 3 each), times cost_per_byte
+        if interned && b.coin_spends.len() <= 10 {
+            if let (Ok(k), Some(w)) = (&blk, independent_interned_weight(g)) {
+                n += 1;
+                let size = k.cost - k.execution_cost - k.condition_cost;
+                if size != w * cpb { fails.push((format!("{id}/interned-weight"), format!("size cost {size} (cost {} - execution {} - conditions {}) is not the interned weight {w} x {cpb}", k.cost, k.execution_cost, k.condition_cost))); }
+            }
+        }
         match (&mem, &blk) {
             (Ok(m), Ok(k)) => {
                 if summary(m) != summary(k) { fails.push((id, format!("conditions differ: mempool {} vs block {}", summary(m), summary(k)))); }
